@@ -95,8 +95,9 @@ type FakeTransport struct {
 	StallAt          int // -1: never; else the device goes silent once this many bytes were delivered
 	LossAt           int // -1: never; else the connection is lost once this many bytes were delivered
 	Loss             LossKind
-	WriteErrAt       int                 // -1: never; else the i-th Write (0-based) and all later ones fail
-	FailWrite        func(b []byte) bool // when set: the first write for which it returns true fails, and all later ones
+	WriteErrAt       int                          // -1: never; else the i-th Write (0-based) and all later ones fail
+	FailWriteOnce    func(idx int, b []byte) bool // when set: every write for which it returns true fails (and only those)
+	FailWrite        func(b []byte) bool          // when set: the first write for which it returns true fails, and all later ones
 	OnClose          CloseMode
 	WriteOKAfterLoss bool          // writes after a read-side loss succeed silently (the peer is gone, the kernel buffers)
 	LossTime         time.Duration // virtual time the first loss answer was delivered (-1: not yet)
@@ -200,6 +201,9 @@ func (t *FakeTransport) Write(b []byte) error {
 		tid = th.ID
 	}
 	t.Writes = append(t.Writes, WriteRec{Step: t.E.Step(), Data: append([]byte(nil), b...), Delivered: t.Delivered, State: st, Thread: tid})
+	if t.FailWriteOnce != nil && t.FailWriteOnce(idx, b) {
+		return ErrWrite // a transient failure: only this write is lost
+	}
 	if t.FailWrite != nil && t.WriteErrAt < 0 && t.FailWrite(b) {
 		t.WriteErrAt = idx // this write and every later one fail
 	}
